@@ -12,12 +12,20 @@ from concurrent.futures import ThreadPoolExecutor
 VERIF = os.path.dirname(os.path.dirname(os.path.abspath(__file__)))
 REPO = os.environ.get("VERIF_REPO", "/repo")
 CACHE = os.environ.get("VERIF_CACHE", os.path.join(VERIF, ".cache"))
-COQ = os.path.join(VERIF, "coq")
+# The Coq development is built in place (VERIF/coq) by the registered commands. When VERIF_CACHE points somewhere else
+# (development in scratch workspaces, confirm_seed / confirm_benign against other checkouts of the repository) the sources
+# are mirrored into that cache and built there, so that concurrent runs against different trees never share generated
+# tables, .vo files or extracted OCaml.
+ISOLATED = os.path.abspath(CACHE) != os.path.join(VERIF, ".cache")
+COQ = os.path.join(CACHE, "coq") if ISOLATED else os.path.join(VERIF, "coq")
+COQ_SRC = os.path.join(VERIF, "coq")
+GEN_ML = os.path.join(os.path.dirname(COQ), "runner", "gen")
 TARGET = os.path.join(CACHE, "target")
 EVID = os.environ.get("VERIF_EVIDENCE", os.path.join(VERIF, "evidence"))
 REPLAY = os.path.join(EVID, "replay")
 NCPU = min(16, os.cpu_count() or 4)
 GUARD = "--cfg imdl_verif"
+ESCALATE = 5   # factor applied to the quick correspondence sample when the translator tie is unavailable
 
 FORBIDDEN = re.compile(
     r"\b(Admitted|admit|Axiom|Axioms|Parameter|Parameters|Conjecture|Conjectures|Admit Obligations|"
@@ -26,6 +34,27 @@ FORBIDDEN = re.compile(
 
 os.makedirs(CACHE, exist_ok=True)
 os.makedirs(REPLAY, exist_ok=True)
+
+
+def _mirror_coq():
+    """isolated mode: VERIF/coq -> CACHE/coq (sources and whatever is already compiled, mtimes kept); the generated tables
+    of this cache's repository are left alone once they exist"""
+    lock = open(os.path.join(CACHE, "mirror.lock"), "w")
+    fcntl.flock(lock, fcntl.LOCK_EX)
+    try:
+        os.makedirs(COQ, exist_ok=True)
+        subprocess.run(["rsync", "-a", "--delete", "--exclude=/Generated/", "--exclude=/Makefile*", "--exclude=/.Makefile.d",
+                        "--exclude=/_CoqProject", "--exclude=/Extract.v", "--exclude=/Extract.vo", "--exclude=/Extract.glob",
+                        "--exclude=/Extract.vos", "--exclude=/Extract.vok", "--exclude=.*.aux", "--exclude=.lia.cache",
+                        "--exclude=.nia.cache", COQ_SRC + "/", COQ + "/"], check=True)
+        subprocess.run(["rsync", "-a", "--ignore-existing", os.path.join(COQ_SRC, "Generated") + "/",
+                        os.path.join(COQ, "Generated") + "/"], check=True)
+    finally:
+        fcntl.flock(lock, fcntl.LOCK_UN); lock.close()
+
+
+if ISOLATED:
+    _mirror_coq()
 
 
 def log(*a):
@@ -102,6 +131,32 @@ def run_translator():
     return rc == 0, out
 
 
+def translator_status():
+    """{generator: {"status": "ok" | "kept-reference" | "fallback", "reason": ..., "origin": ...}} of the last translator run"""
+    try:
+        return json.load(open(os.path.join(COQ, "Generated", "rs2v_status.json")))
+    except Exception:
+        return {}
+
+
+def transitive_generated(pid):
+    """names of the Generated/*.v files the property file depends on, directly or through the models and proofs it requires"""
+    pat = re.compile(r"From\s+Imdl\s+Require\s+(?:Import\s+|Export\s+)?((?:[A-Za-z_][A-Za-z0-9_]*(?:\.[A-Za-z_][A-Za-z0-9_]*)*\s*)+)\.")
+    seen, todo, gens = set(), [os.path.join(COQ, "Properties", pid + ".v")], set()
+    while todo:
+        f = todo.pop()
+        if f in seen or not os.path.exists(f):
+            continue
+        seen.add(f)
+        for m in pat.finditer(coq_strip_comments(open(f).read())):
+            for mod in m.group(1).split():
+                parts = mod.split(".")
+                if parts[0] == "Generated" and len(parts) == 2:
+                    gens.add(parts[1])
+                todo.append(os.path.join(COQ, *parts) + ".v")
+    return gens
+
+
 def coq_make(targets, timeout=1500):
     """make the given .vo targets (paths relative to coq/). Returns (ok, log)."""
     with Lock("coq"):
@@ -172,7 +227,7 @@ def gen_extract_v():
     reqs = []
     for _, r, _ in frags:
         reqs += [x for x in r if x not in reqs]
-    os.makedirs(os.path.join(VERIF, "runner", "gen"), exist_ok=True)
+    os.makedirs(GEN_ML, exist_ok=True)
     text = ("(** GENERATED by tools/lib.py from coq/Extract.d/*.txt - do not edit.\n"
             "    Extraction of the executable models for the correspondence runs. ExtrOcamlBasic only:\n"
             "    bool, option, unit, list, prod, sumbool, sumor map to OCaml's; no Extract Constant;\n"
@@ -258,7 +313,7 @@ def ensure_runner():
         return None, out
     with Lock("ocaml"):
         rdir = os.path.join(VERIF, "runner")
-        gdir = os.path.join(rdir, "gen")
+        gdir = GEN_ML
         bdir = os.path.join(CACHE, "runner")
         os.makedirs(bdir, exist_ok=True)
         exe = os.path.join(bdir, "modelrun")
@@ -550,13 +605,20 @@ class Ctx:
         self.bins = None
         self.modelrun = None
         self.notes = []
+        self.soft = {}            # generators whose source the translator could not read (reference tables kept)
 
     @property
     def thorough(self):
         return self.tier == "thorough"
 
     def n(self, quick, thorough):
-        return thorough if self.thorough else quick
+        """case count by tier. When a table-like source file of this property has changed shape so that the translator tie is
+        not available (self.soft), the quick tier enlarges its correspondence sample: that run is then the only tie."""
+        if self.thorough:
+            return thorough
+        if self.soft and thorough > quick:
+            return min(thorough, quick * ESCALATE)
+        return quick
 
     def count(self, key, k=1):
         d = self.cov["distribution"]
@@ -592,6 +654,13 @@ class Ctx:
             "log": mlog[-4000:], "wall_s": 0, "checker_cmd": "make (failed)"}
         res["translator_ok"] = ok_t
         res["translator_log"] = tlog[-2000:]
+        st = translator_status()
+        mine = transitive_generated(pid)
+        self.soft = {g: v for g, v in st.items() if g in mine and v.get("status") == "kept-reference"}
+        res["translator_status"] = {g: v for g, v in st.items() if g in mine}
+        for g, v in sorted(self.soft.items()):
+            log("%s: the translator can no longer read %s (%s); the tables of the last validated tree are kept and the "
+                "correspondence run is enlarged" % (pid, v.get("origin"), v.get("reason")))
         res["grep_gate"] = gate
         if gate:
             res["ok"] = False
@@ -644,6 +713,10 @@ class Ctx:
                                              "translator_ok": obl.get("translator_ok"),
                                              "translator_log": obl.get("translator_log"),
                                              "grep_gate": obl.get("grep_gate")}})
+        for g, v in sorted(self.soft.items()):
+            self.notes.append("translator tie unavailable for %s (%s): %s; the theorems were checked against the tables of the last "
+                              "validated tree (coq/GeneratedRef/%s.v) and the model was tied to this tree by the correspondence run "
+                              "alone, with the quick sample enlarged %dx" % (g, v.get("origin"), v.get("reason"), g, ESCALATE))
         cov = dict(self.cov)
         cov.update({
             "obligations": n_obl, "discharged": n_dis,
@@ -662,13 +735,17 @@ class Ctx:
         ev = {"property_id": self.pid, "tier": self.tier, "seed": self.seed, "level": level,
               "coverage": cov, "assumptions": self.assumptions, "wall_s": round(time.time() - self.t0, 2),
               "violations": len(self.violations),
-              "known_findings_hit": {k: v[0] for k, v in self.known_hits.items()}, "notes": self.notes}
+              "known_findings_hit": {k: v[0] for k, v in self.known_hits.items()}, "notes": self.notes,
+              "translator": (self.obl or {}).get("translator_status", {})}
         os.makedirs(EVID, exist_ok=True)
         with open(os.path.join(EVID, self.pid + ".json"), "w") as f:
             json.dump(ev, f, indent=1, default=_js)
         for key, (cnt, text) in sorted(self.known_hits.items()):
             print("KNOWN-FINDING: property=%s %s (key=%s, %d case(s) this run)" % (self.pid, text, key, cnt))
         if not self.violations:
+            for g, v in sorted(self.soft.items()):
+                print("NOTE property=%s source of %s not readable by the translator (%s); reference tables kept, tie by "
+                      "correspondence only (enlarged sample)" % (self.pid, g, v.get("reason")))
             print("OK property=%s tier=%s obligations=%d/%d evaluations=%d wall=%.0fs" %
                   (self.pid, self.tier, n_dis, n_obl, cov["evaluations"], time.time() - self.t0))
             return 0
